@@ -55,18 +55,22 @@ CLAIMED["C07"] = dict(
 )
 
 CLAIMED["C01"] = dict(
-    text="Lean 4 replay theorem over the model of Differ.diff and Patcher (scriptGen_replay): for every matching, "
-    "option set and document size, whenever the script generator completes, the shipped patcher applied to the left "
-    "document accepts the emitted script (no assert fails, every path resolves to exactly one node) and its result is "
-    "exactly the differ's final working copy (C01_patch_reproduces_working_copy, C01_final_wf), together with the "
-    "refinement strict => shipped. PARTIAL: that this final working copy equals the right document (the Chawathe "
-    "script-generation invariant) is not proved yet; it is compared on every generated case (U5 compares the model's "
-    "and the real differ's final tree, the round-trip oracle compares patch_tree(diff_trees(L,R),L) with R). Models are "
-    "tied to the code by units U1 U2 U4 U5 and the end-to-end comparison.",
+    text="Lean 4 theorems over the model of Differ.match, Differ.diff and Patcher, for documents of any size, every similarity "
+    "oracle and every option set with F > 0 (C01_diff_then_patch), and for every one-to-one, root-pairing, kind-respecting "
+    "matching whatsoever (C01_script_reaches_right): whenever the script generator completes, (1) the shipped patcher applied to "
+    "the left document accepts the emitted script - no assert fails, every path resolves to exactly one node - and its result is "
+    "the differ's final working copy (replay theorem, scriptGen_replay), and (2) that working copy equals the right document in "
+    "tags, texts, tails, comments, child order and every non-ignored attribute, attribute order aside (scriptGen_final: the "
+    "invariant of Chawathe et al. for this implementation - find_pos with its count-every-physical-child semantics, the LCS "
+    "alignment, cross-parent moves, inserts in BFS order, attribute rename / update / insert / delete phases, the delete phase). "
+    "PARTIAL: that the differ never raises on the C01 domain is a hypothesis (observed per run), and namespaced documents are "
+    "outside the model (oracle stream only). Models are tied to the code by units U1 U2 U4 U5 and the end-to-end comparison; "
+    "the round-trip oracle compares patch_tree(diff_trees(L,R),L) with R on the real code.",
     note="Trusted: Lean kernel and standard axioms; hand-written models of Differ.match/diff and Patcher validated by "
     "differential execution on every run, not proved; similarity values are an oracle; namespace-free documents only "
     "in the model (namespaced documents: oracle stream only).",
-    technique="Lean 4 proof (simulation of patcher against differ working copy, tree-surgery lemmas) + correspondence + round-trip oracle",
+    technique="Lean 4 proof (script-generation invariant by induction over the BFS loop, simulation of patcher against differ "
+    "working copy, tree-surgery lemmas) + model/code differential correspondence + round-trip oracle",
     design="DESIGN.md section 6, C01",
 )
 CLAIMED["C13"] = dict(
